@@ -336,3 +336,52 @@ let jpop = function
   | PJump (o, l) -> "[\"J\"," ^ jop o ^ "," ^ jnat l ^ "]"
 
 let jpops (rs : pop list list) = jlist (jlist jpop) rs
+
+(* ---------- source maps ---------- *)
+let as_otext (x : sexp) : text option =
+  match x with
+  | L [ Atom "none" ] -> None
+  | L (Atom "some" :: cps) -> Some (List.map (fun c -> n_of_int (as_int c)) cps)
+  | _ -> raise (Bad "otext expected")
+
+let as_posmark (x : sexp) : posmark =
+  match x with
+  | L [ a; b; c; d; nm; e; f; g; h ] ->
+      { pm_line = as_z a; pm_col = as_z b; pm_eline = as_z c; pm_ecol = as_z d; pm_name = as_text nm;
+        pm_xo = as_z e; pm_yo = as_z f; pm_xr = as_z g; pm_yr = as_z h }
+  | _ -> raise (Bad "posmark expected")
+
+let as_pval = function
+  | L [ Atom "i"; z ] -> PVInt (as_z z)
+  | L (Atom "s" :: cps) -> PVStr (List.map (fun c -> n_of_int (as_int c)) cps)
+  | _ -> raise (Bad "pval expected")
+
+let as_smap (x : sexp) : smap =
+  match x with
+  | L [ Atom "sm"; L mp; L marks; L mmp; L mmarks ] ->
+      { s_map = List.map (function L [ k; l; c ] -> (as_z k, { m_line = as_z l; m_col = as_z c }) | _ -> raise (Bad "map entry")) mp;
+        s_marks = List.map as_posmark marks;
+        s_mmap =
+          List.map
+            (function
+              | L [ k; f; mn; l; c; called; ret; L ps ] ->
+                  ( as_z k,
+                    { mm_file = as_otext f; mm_macro = as_text mn; mm_line = as_z l; mm_col = as_z c;
+                      mm_called = (match called with
+                                   | L [] -> None
+                                   | L [ cf; cl; cc ] -> Some ((as_otext cf, as_z cl), as_z cc)
+                                   | _ -> raise (Bad "called"));
+                      mm_ret = as_opt as_z ret;
+                      mm_params = List.map (function L [ k; v ] -> (as_name k, as_pval v) | _ -> raise (Bad "param")) ps } )
+              | _ -> raise (Bad "mmap entry"))
+            mmp;
+        s_mmarks = List.map (function L [ f; mn; pm ] -> ((as_otext f, as_text mn), as_posmark pm) | _ -> raise (Bad "mmark")) mmarks }
+  | _ -> raise (Bad "smap expected")
+
+let rec jjson (j : json) : string =
+  match j with
+  | JNull -> "null"
+  | JInt z -> string_of_z z
+  | JStr t -> "{\"$t\":" ^ jtext t ^ "}"
+  | JArr l -> jlist jjson l
+  | JObj l -> "{" ^ String.concat "," (List.map (fun (k, v) -> jname k ^ ":" ^ jjson v) l) ^ "}"
